@@ -473,6 +473,9 @@ structure BlockCfg where
   scopeWord : Str    -- "" | "class" | "struct"  (`ast.scope`)
   inClass   : Bool   -- parent.nodename == "class"
   pyType    : Str    -- PY_PyTypeObject of the parent class
+  wrapC     : Bool := true   -- node.wrap.c        (options wrap_c of the enum, inherited from its parent)
+  wrapF     : Bool := true   -- node.wrap.fortran
+  wrapPy    : Bool := true   -- node.wrap.python
   deriving Repr
 
 /-- C_enum = "{C_prefix}{C_name_scope}{enum_name}" -/
@@ -490,9 +493,11 @@ def cMemberItem (o : Out) : Str :=
   | none => o.cname ++ [',']
 
 /-- The strings wrapc.wrap_enum appends to `enum_impl` (`+`/`-` are the indent
-    directives of `write_lines`).  Nothing is written for an enumeration without
+    directives of `write_lines`).  Each emitter writes nothing when the
+    enumeration's wrap flag for its language is off.  Nothing is written for an enumeration without
     members (an empty enumerator list is not C). -/
 def cItems (b : BlockCfg) (os : List Out) : List Str :=
+  if !b.wrapC then [] else     -- `if not node.wrap.c: return`
   if os.isEmpty then [] else   -- `if not ast.members: return`
   stripLastChar ([[], "//  ".toList ++ b.nsScope ++ b.cfg.ename,
       "enum ".toList ++ cEnumName b.cfg ++ " {+".toList] ++ os.map cMemberItem) ++ ["-};".toList]
@@ -503,6 +508,7 @@ def fMemberItem (o : Out) : Str := fParamPrefix ++ o.fname ++ " = ".toList ++ o.
 
 /-- The strings wrapf.wrap_enum appends to `fileinfo.enum_impl`. -/
 def fItems (b : BlockCfg) (os : List Out) : List Str :=
+  if !b.wrapF then [] else     -- `if not node.wrap.fortran: return`
   [[], (if b.scopeWord.isEmpty then "!  enum ".toList
         else "!  enum ".toList ++ b.scopeWord ++ [' ']) ++ b.nsScope ++ b.cfg.ename] ++ os.map fMemberItem
 
@@ -516,6 +522,7 @@ def pyValueExpr (b : BlockCfg) (n : Str) : Str :=
 
 /-- The strings wrapp.wrap_enum appends to `enum_impl`. -/
 def pyItems (b : BlockCfg) (ms : List Member) : List Str :=
+  if !b.wrapPy then [] else    -- `if not node.wrap.python: return`
   if b.inClass then
     ["\n{+".toList, "// enumeration ".toList ++ b.cfg.ename, "PyObject *tmp_value;".toList] ++
     ms.map (fun m =>
